@@ -31,6 +31,9 @@ def main():
     for m in muts:
         if names and m["name"] not in names:
             continue
+        if m.get("equivalent") and not names:
+            print(f"{prop} mutant {m['name']:40s} -> skipped, equivalent: {m['equivalent']}")
+            continue
         tmp = tempfile.mkdtemp(prefix="bvmut_")
         try:
             dst = os.path.join(tmp, "repo")
